@@ -6,6 +6,7 @@ pub mod c13;
 pub mod c14;
 pub mod c15;
 pub mod c17;
+pub mod c19;
 
 pub struct PropDef {
     pub info: PropInfo,
@@ -16,7 +17,7 @@ pub struct PropDef {
 }
 
 pub fn all() -> Vec<PropDef> {
-    vec![c06::def(), c13::def(), c14::def(), c15::def(), c15::def16(), c17::def()]
+    vec![c06::def(), c13::def(), c14::def(), c15::def(), c15::def16(), c17::def(), c19::def()]
 }
 
 pub fn find(id: &str) -> Option<PropDef> {
